@@ -109,6 +109,15 @@ typename dis_interval<Number>::list_intervals_t dis_interval<Number>::normalize(
   for (unsigned int i = 0; i < l.size(); ++i) {
     ikos::interval<Number> intv = l[i];
 
+    // (checked before the duplicate test: prev starts as top, so a
+    // top interval would be taken for a duplicate and dropped)
+    if (intv.is_top()) {
+      CRAB_LOG("disint", crab::outs() << "-- Normalize: top interval"
+                                      << "\n");
+      is_bottom = false;
+      return typename dis_interval<Number>::list_intervals_t();
+    }
+
     if (prev == intv) {
       CRAB_LOG("disint", crab::outs() << "-- Normalize: duplicate"
                                       << "\n");
@@ -120,13 +129,6 @@ typename dis_interval<Number>::list_intervals_t dis_interval<Number>::normalize(
                                       << "\n");
       bottoms++;
       continue;
-    }
-
-    if (intv.is_top()) {
-      CRAB_LOG("disint", crab::outs() << "-- Normalize: top interval"
-                                      << "\n");
-      is_bottom = false;
-      return typename dis_interval<Number>::list_intervals_t();
     }
 
     if (!prev.is_top()) {
